@@ -5,17 +5,80 @@
    `trace ops` every call made on the underlying allocator since (and including) construction, `chks` the allocator's own
    bookkeeping of such a trace (sizes by block id, ids given back). *)
 From Coq Require Import NArith Arith Bool List.
-From CppUVerif Require Import gen.Gen_C18 C18_Model C18_Lists C18_Inv C18_Sim C18_Proofs C18_Hist.
+From CppUVerif Require Import gen.Gen_C18 C18_Model C18_Lists C18_Inv C18_Sim C18_Proofs C18_Hist C18_ModelG C18_GInv C18_GSim C18_GProofs.
 Import ListNotations.
 Local Open Scope N_scope.
 
-(* for every scenario the model's observation satisfies the model-free statement of the property: no buffer handed out
-   overlaps one in use, capacity >= request, reuse only within the size class, blocks go back at most once, with their size
-   and never while in use, clearCache returns every idle block, clearAll everything obtained since construction,
+(* for every scenario of the check's language -- a history of calls on a bare cache (C18_Model) or a history over INSTALLED
+   GlobalSimpleStringCache objects (C18_ModelG) -- the model's observation satisfies the model-free statement of the property:
+   no buffer handed out overlaps one in use, capacity >= request, reuse only within the size class, blocks go back at most once,
+   with their size and never while in use, clearCache returns every idle block, clearAll everything obtained since construction,
    destruction the node array, and the first unknown release (and only it) warns *)
-Theorem C18_run_meets_spec : forall s, valid s = true -> spec s (run s) = true.
-Proof. exact run_meets_spec. Qed.
+Theorem C18_run_meets_spec : forall s, xvalid s = true -> xspec s (xrun s) = true.
+Proof. exact xrun_meets_xspec. Qed.
 Print Assumptions C18_run_meets_spec.
+
+(* the two halves of it: the bare cache ... *)
+Theorem C18_cache_run_meets_spec : forall s, valid s = true -> spec s (run s) = true.
+Proof. exact run_meets_spec. Qed.
+Print Assumptions C18_cache_run_meets_spec.
+
+(* ... and the installed cache: any number of GlobalSimpleStringCache objects constructed one after the other or nested to any
+   depth over a recording string allocator (an object nested in another takes the outer object's cache as its underlying
+   allocator), requests / releases through whatever is installed or straight at the recorder, clearCache / clearAll of the
+   innermost object, buffers of any size in use at any destruction, pointers of one object released under another.  The oracle
+   judges: the recorder's books (every call legal, every block back at most once, with its size, never while a buffer in it is
+   in use); buffers handed out inside owned unreturned blocks, large enough, not overlapping any buffer in use, reused only
+   within their class; a release known iff the pointer is in use on the innermost object's account with a size of its class;
+   the first unknown release at an object warns, no other; after clearCache the object holds exactly one header and one buffer
+   per buffer in use on its account; after clearAll and after DESTRUCTION the object holds nothing of its underlying
+   allocator's memory, and when it is the outermost object every recorder block obtained since its construction is back *)
+Theorem C18_installed_run_meets_spec : forall sc, gvalid sc = true -> gspec sc (grun sc) = true.
+Proof. exact grun_meets_gspec. Qed.
+Print Assumptions C18_installed_run_meets_spec.
+
+(* at the end of every valid installed scenario (objects still alive are destroyed) nothing is installed, the whole trace of
+   calls is legal in the recorder's own books, no block went back twice, and every block the recorder ever handed out is back
+   -- except buffers requested with nothing installed that are still in use *)
+Theorem C18_installed_all_returned : forall sc, gvalid sc = true ->
+  exists sf, gfinal sc = Some sf /\ q_lv sf = [] /\
+    chks ([], []) (gtrace (grun sc)) = Some (q_bk sf) /\ NoDup (snd (q_bk sf)) /\
+    forall id, id < N.of_nat (length (fst (q_bk sf))) -> In id (snd (q_bk sf)) \/ direct_live sf id.
+Proof. exact installed_all_returned. Qed.
+Print Assumptions C18_installed_all_returned.
+
+(* whatever the state: after clearAll and after the destructor the forwarding recorder below the object counts no pointer
+   outstanding and no pointer returned twice *)
+Theorem C18_destroyed_object_holds_nothing : forall w w' x o, (o = GPop \/ o = GClearAll) -> gstep w o = (w', x) -> gi_out x = 0 /\ gi_dbl x = 0.
+Proof. exact destroyed_holds_nothing. Qed.
+Print Assumptions C18_destroyed_object_holds_nothing.
+
+(* one installed object over the recorder IS the cache of C18_Model (whose functions are tied to the source by C18_HeapTie):
+   a request makes the allocator calls of alloc, returns its pointer and leaves its lists; a release is dealloc; the clears are
+   clear_cache / clear_all *)
+Theorem C18_installed_request_is_alloc : forall c n,
+  let st := g_st c in
+  exists st' nx', u_alloc 1 [c] (s_next st) n = ([set_st c st'], nx', match o_ret (snd (alloc st n)) with Some p => p | None => 0 end,
+                                                 o_evs (snd (alloc st n))) /\
+              nx' = s_next (fst (alloc st n)) /\
+              s_cache st' = s_cache (fst (alloc st n)) /\ s_non st' = s_non (fst (alloc st n)) /\ s_warned st' = s_warned (fst (alloc st n)).
+Proof. exact single_request_is_alloc. Qed.
+Print Assumptions C18_installed_request_is_alloc.
+Theorem C18_installed_release_is_dealloc : forall c p n,
+  u_free 1 [c] p n = ([set_st c (fst (dealloc (g_st c) p n))], o_evs (snd (dealloc (g_st c) p n)), o_warn (snd (dealloc (g_st c) p n))).
+Proof. exact single_release_is_dealloc. Qed.
+Print Assumptions C18_installed_release_is_dealloc.
+Theorem C18_installed_clear_is_clear : forall c,
+  u_clear clear_cache [c] = ([set_st c (fst (clear_cache (g_st c)))], o_evs (snd (clear_cache (g_st c))), false) /\
+  u_clear clear_all [c] = ([set_st c (fst (clear_all (g_st c)))], o_evs (snd (clear_all (g_st c))), false).
+Proof. exact single_clear_is_clear. Qed.
+Print Assumptions C18_installed_clear_is_clear.
+
+(* a destructor that only drops the cached blocks (clearCache in place of clearAll) is refuted by a computed scenario: an object
+   destroyed with one buffer in use *)
+Theorem C18_destroy_by_clear_cache_refuted : gvalid leak_scn = true /\ gspec leak_scn (grun_with gstep_cc_variant world0 leak_scn) = false.
+Proof. exact destroy_by_clear_cache_refuted. Qed.
+Print Assumptions C18_destroy_by_clear_cache_refuted.
 
 (* in every reachable state the allocator accepted every call so far, all headers and buffers in all lists are pairwise
    distinct, the lists of a node hold only blocks obtained with that node's size (headers with the header size), the
